@@ -629,7 +629,8 @@ theorem plain_environment (t : Table) (w : World) (c : Nat) (inTx : Bool) (ini :
 /-! ## Composite commands: what the facade does behind the caller's back
 
 Tagged `set` / `incr` (→ `set_add` on the tag keys, possibly on a dedicated backend under `_tag:`),
-`delete_tags` (→ `set_pop`, `delete_many`), `get_or_set`, `cache.lock` (→ `set_lock`, `ping`, `unlock`),
+`delete_tags` (→ `set_pop`, `delete_many`), `get_or_set`, `cache.lock` (→ `set_lock`, the liveness probe —
+a PING with message `LOCK` routed by the LOCK KEY —, `unlock`),
 `@cache.invalidate` (→ `delete_match`) are programs over the facade's own public commands (`Prog`,
 `Comp.prog` in `Model/DisableCompose.lean`): every step is routed and runs through the whole middleware
 stack, and the next step depends on what the previous one answered (`Env`: the backends' answers and
@@ -746,6 +747,34 @@ theorem lock_with_set_lock_disabled (t : Table) (w : World) (c : Nat) (inTx inv 
   simp [runComp, Comp.prog, lockProg, Prog.run,
     disabled_short_circuit_any_env t w c inTx inv ini .setLock key b hb hd, callbacksFrom, toAns,
     defaultShape]
+
+/-- **`cache.lock` asks the owner of the lock key, and nobody else** (fix D43).  Every backend call the
+lock composite causes — `set_lock`, the liveness probe (a PING with message `LOCK`), `unlock`, `init()` —
+is issued under a single-key command on the LOCK KEY and goes to the backend registered under the
+longest prefix of the lock key: the probe is routed, and disable-checked, by the key, not by the text
+of its message.  Hence whether the default backend exists, is disabled or has PING disabled is
+irrelevant for a lock whose key lives elsewhere; and (when the backends report no removed keys to the
+tag bookkeeping) a lock on a key that has a backend never ends in `NotConfiguredError`: a lock held by
+somebody else is waited for / raises `LockedError`, with or without a default backend. -/
+theorem lock_asks_only_the_owner_of_the_lock_key (t : Table) (w : World) (c : Nat) (inTx inv : Bool)
+    (env : Env) (ini : List Nat) (key : List Nat) (wait : Bool) (fuel : Nat) (b : Nat)
+    (hb : t.getBackend key = some b) :
+    (∀ x ∈ PEv.bcalls (runComp t w c inTx inv env ini (.lock key wait fuel)).1,
+        (∃ cmd, x.1 = .keyed cmd key) ∧ x.2.backend = b ∧ isDisable w c b [x.1.cmd] = false) ∧
+    ((∀ n, env.removed n = []) →
+        (runComp t w c inTx inv env ini (.lock key wait fuel)).2.1 ≠ .notConfigured) := by
+  constructor
+  · rintro ⟨f, bc⟩ hx
+    obtain ⟨calls, cbs, hev, hbc⟩ := mem_bcalls hx
+    obtain ⟨cmd, rfl⟩ := Prog.run_onlyKey_sub t w c inTx inv env key _ (lockProg_onlyKey key wait fuel)
+      ini 0 f calls cbs hev
+    obtain ⟨ini0, n0, res, ini', he, _⟩ := Prog.run_sub t w c inTx inv env _ ini 0 _ calls cbs hev
+    have hbk := execS_keyed_backend hb he bc hbc
+    have hen := ((composite_calls_enabled_and_routed t w c inTx inv env _ ini 0).1 _ hx).1
+    refine ⟨⟨cmd, rfl⟩, hbk, ?_⟩
+    simpa [hbk] using hen
+  · intro hrm
+    exact Prog.run_onlyKey_configured t w c inTx inv env key b hb hrm _ (lockProg_onlyKey key wait fuel) ini 0
 
 /-- **`get_or_set` while `get` is disabled: the caller's default is computed on every call** (a
 disabled read answers the miss sentinel), and the following `set` is issued only if `set` is enabled. -/
@@ -1083,16 +1112,35 @@ example : runComp TT (World.init true) 0 false false envPop [0, 1] (.deleteTags 
 -- ... with `set_pop` disabled for the tags backend nothing at all is issued
 example : (runComp TT WtagOff 0 false false envPop [0, 1] (.deleteTags [[116]] 3)).1 =
     [.sub (.keyed .setPop (tagKey [116])) [] []] := by decide
--- lock("u", wait=False) while somebody else holds it: set_lock, ping("LOCK") — routed by "LOCK" — then LockedError;
--- with `ping` disabled the block runs unlocked; a free lock: set_lock, block, unlock
+-- lock("u", wait=False) while somebody else holds it: set_lock, the probe — a PING routed by the lock key "u" —, then
+-- LockedError; with `ping` disabled for the key's backend the block runs unlocked; a free lock: set_lock, block, unlock
 example : runComp TT (World.init true) 0 false false envHeld [0, 1] (.lock [117] false 2) =
     ([.sub (.keyed .setLock [117]) [.cmd ⟨.raw 0, .setLock, [[117]]⟩] [],
-      .sub (.keyed .ping lockPing) [.cmd ⟨.raw 0, .ping, [lockPing]⟩] []], .locked, [0, 1]) := by decide
+      .sub (.keyed .ping [117]) [.cmd ⟨.raw 0, .ping, [[117]]⟩] []], .locked, [0, 1]) := by decide
 example : (runComp TT (ctlRun TT (World.init true) [.disable 0 [.ping] []]) 0 false false envHeld [0, 1]
     (.lock [117] false 2)).2.1 = .ret .none_ := by decide
 example : (runComp TT (World.init true) 0 false false envT [0, 1] (.lock [117] false 2)).1 =
     [.sub (.keyed .setLock [117]) [.cmd ⟨.raw 0, .setLock, [[117]]⟩] [], .body,
      .sub (.keyed .unlock [117]) [.cmd ⟨.raw 0, .unlock, [[117]]⟩] []] := by decide
+-- D43: the lock key "ak" lives on the backend of prefix "a" (1); there is NO default backend — "LOCK" has no backend —
+-- and the lock is held by somebody else: the probe asks backend 1 and the outcome is LockedError, not NotConfigured
+example : (Table.ofList [([97], 1)]).getBackend lockPing = none ∧
+    runComp (Table.ofList [([97], 1)]) (World.init true) 0 false false envHeld [1] (.lock [97, 107] false 2) =
+      ([.sub (.keyed .setLock [97, 107]) [.cmd ⟨.raw 1, .setLock, [[97, 107]]⟩] [],
+        .sub (.keyed .ping [97, 107]) [.cmd ⟨.raw 1, .ping, [[97, 107]]⟩] []], .locked, [1]) := by decide
+-- D43: a default backend (0) with PING disabled — even fully disabled — does not let a contender of a lock on "ak" through ...
+example : (runComp (Table.ofList [([], 0), ([97], 1)])
+      (ctlRun (Table.ofList [([], 0), ([97], 1)]) (World.init true) [.disable 0 [] []]) 0 false false envHeld [0, 1]
+      (.lock [97, 107] false 2)).2.1 = .locked := by decide
+-- ... while PING disabled for the OWNER of the lock key does (no liveness answer: the block runs, nothing else is issued)
+example : runComp (Table.ofList [([], 0), ([97], 1)])
+      (ctlRun (Table.ofList [([], 0), ([97], 1)]) (World.init true) [.disable 0 [.ping] [97]]) 0 false false envHeld [0, 1]
+      (.lock [97, 107] false 2) =
+    ([.sub (.keyed .setLock [97, 107]) [.cmd ⟨.raw 1, .setLock, [[97, 107]]⟩] [],
+      .sub (.keyed .ping [97, 107]) [] [], .body], .ret .none_, [0, 1]) := by decide
+-- a plain `cache.ping(b"LOCK")` is still routed by the text of its message
+example : (runComp (Table.ofList [([], 0), ([97], 1)]) (World.init true) 0 false false envT [0, 1]
+    (.one (.keyed .ping lockPing))).1 = [.sub (.keyed .ping lockPing) [.cmd ⟨.raw 0, .ping, [lockPing]⟩] []] := by decide
 -- the premises of `lock_with_set_lock_disabled` / `disabled_step_issues_nothing` are satisfiable
 example : TT.getBackend (tagKey [116]) = some 1 ∧ isDisable WtagOff 0 1 [.setAdd] = true ∧
     isDisable WtagOff 1 1 [.setAdd] = false := by decide
